@@ -276,7 +276,7 @@ def shard(part, shard_i, nshards, tier, seed, deadline, prop):
     ilv.install()
     for i, h in enumerate(harnesses(tier, prop)):
         if (i + seed) % nshards == shard_i:
-            ilvrun.explore_all(part, [h], 0, 1, PB_of(tier), 0, deadline, horizon=6 * D, coarse_pb=2 if (tier != "quick" or prop != "C17") else None)
+            ilvrun.explore_all(part, [h], 0, 1, PB_of(tier), 0, deadline, horizon=6 * D, coarse_pb=2 if (prop != "C17" or (tier != "quick" and h.prog in ("tie", "tie2", "tieC"))) else None)
 
 
 def run_part(ctx, prop):
